@@ -1487,12 +1487,12 @@ func c14ReaderClosure(c *Ctx, covered map[*ssa.Function]bool, outOfScope func(st
 						continue
 					}
 					for _, rr := range referrersOf(x) {
-						if u, isU := rr.(*ssa.UnOp); isU && u.Op == token.MUL {
+						if u, isU := rr.(*ssa.UnOp); isU && u.Op == token.MUL && !c14OnlyMeasured(u) {
 							readers[fn] = u
 						}
 					}
 				case *ssa.Field:
-					if namedTypeString(x.X.Type()) == typePhase && fieldName(x.X.Type(), x.Field) == "Objects" {
+					if namedTypeString(x.X.Type()) == typePhase && fieldName(x.X.Type(), x.Field) == "Objects" && !c14OnlyMeasured(x) {
 						readers[fn] = x
 					}
 				}
@@ -2345,4 +2345,27 @@ func c14SliceNameOrigin(p *Program, key ssa.Value, deploy *ssa.Parameter, listCa
 		v = step(v)
 	}
 	return ""
+}
+
+// c14OnlyMeasured: the loaded Objects slice is used for nothing but len()/cap() (a log line or a
+// capacity hint) — that is not a consumer of the phase's objects.
+func c14OnlyMeasured(v ssa.Value) bool {
+	refs := referrersOf(v)
+	if len(refs) == 0 {
+		return false
+	}
+	for _, r := range refs {
+		ci, ok := r.(ssa.CallInstruction)
+		if !ok {
+			if _, isDbg := r.(*ssa.DebugRef); isDbg {
+				continue
+			}
+			return false
+		}
+		b, isB := ci.Common().Value.(*ssa.Builtin)
+		if !isB || (b.Name() != "len" && b.Name() != "cap") {
+			return false
+		}
+	}
+	return true
 }
